@@ -91,12 +91,159 @@ def mons_of(name, dim, order):
     if name in ("QUAD4", "QUAD9", "HEXA8", "HEXA27"):
         return allm
     if name in ("PRISM6", "PRISM18"):
-        return [m for m in allm if m[0] + m[1] <= order]
-    return [m for m in allm if sum(m) <= order]
+        return [m for m in allm if not (m[0] + m[1] > order)]
+    return [m for m in allm if not (sum(m) > order)]
 
 
 def rand_point(rng, dim):
     return [Fraction(rng.randint(-16, 16), 16) for _ in range(dim)]
+
+
+def eval_dense(F, P):
+    """Values of the callables of a table at the rows of P, one scalar call per (point, entry)
+    with plain Python floats -> (nP, nF, nPe) floats (the expectation for the library's evaluator)."""
+    nPe, nF = F.shape[:2]
+    out = np.zeros((len(P), nF, nPe))
+    for p, row in enumerate(np.asarray(P).tolist()):
+        x = [float(c) for c in row]
+        for n in range(nPe):
+            for f in range(nF):
+                out[p, f, n] = float(F[n, f](*x))
+    return out
+
+
+def lattice_points(g):
+    """Integer-typed points of the closed reference element (vertices, mid-sides, centre ...)."""
+    loc = np.asarray(g.Get_Local_Coords(), dtype=float)
+    lo, hi = loc.min(axis=0), loc.max(axis=0)
+    pts = []
+    for x in itertools.product((-1, 0, 1), repeat=g.dim):
+        if any(not (lo[k] <= x[k] <= hi[k]) for k in range(g.dim)):
+            continue
+        if g.topology in ("TRI", "TETRA") and sum(x) > 1:
+            continue
+        if g.topology == "PRISM" and x[0] + x[1] > 1:
+            continue
+        pts.append(x)
+    return np.array(pts, dtype=np.int64).reshape(len(pts), g.dim)
+
+
+def check_evaluator(res, name, g, tabs, prefix, rng, npts):
+    """The library's evaluator of the tables (the function behind Get_*_pg and the mesh interpolation)
+    at points that are NOT Gauss points: the reference nodes exactly as Get_Local_Coords() returns them,
+    integer-typed points of the reference element, a batch of random float points and a single point.
+    What it returns must be the values of the tabulated callables at each point, (nP, nF, nPe)."""
+    nodes_native = np.asarray(g.Get_Local_Coords())
+    batch = np.array([[float(c) for c in rand_point(rng, g.dim)] for _ in range(max(16, npts))])
+    if g.topology in ("TRI", "TETRA", "PRISM"):
+        batch[:, : (2 if g.topology != "TETRA" else 3)] = np.abs(batch[:, : (2 if g.topology != "TETRA" else 3)]) / 3
+    point_sets = [
+        ("nodes-as-returned", nodes_native),
+        ("nodes-float64", nodes_native.astype(float)),
+        ("integer-points", lattice_points(g)),
+        ("random-batch", batch),
+        ("single-point", batch[:1].copy()),
+        ("batch-transposed-view", np.asfortranarray(batch)),
+    ]
+    for t, F in tabs.items():
+        for label, P in point_sets:
+            ident = dict(elem=name, table=prefix + t, points=label, dtype=str(P.dtype), coords=P.tolist())
+            key = f"elem={name} evaluator table={prefix}{t} points={label}"
+            try:
+                got = np.asarray(type(g)._Eval_Functions(F, P))
+            except Exception as e:  # noqa: BLE001
+                res.fail(key + " raises", f"_Eval_Functions({name}.{prefix}{t}(), {label} of dtype {P.dtype}) raises {type(e).__name__}: {e}", ident)
+                continue
+            ref = eval_dense(F, P)
+            res.case((name, "evaluator", prefix + t, label), nontrivial=bool(np.abs(ref).max() > 0))
+            if got.shape != ref.shape:
+                res.fail(key + " shape", f"_Eval_Functions returns shape {got.shape}, expected (nP, nF, nPe) = {ref.shape}", ident)
+                continue
+            try:
+                diff = np.abs(got.astype(float) - ref)
+            except Exception as e:  # noqa: BLE001
+                res.fail(key + " raises", f"evaluated table of dtype {got.dtype} is not real: {e}", ident)
+                continue
+            err = diff.max() if diff.size else 0.0
+            if not (err <= 1e-9 * (1 + np.abs(ref).max())):
+                p, a, i = np.unravel_index(int(np.nanargmax(np.where(np.isnan(diff), np.inf, diff))), diff.shape)
+                res.fail(key,
+                         f"_Eval_Functions({name}.{prefix}{t}(), {label} of dtype {P.dtype})[{p},{a},{i}] = {got[p, a, i]} "
+                         f"but {prefix}{t}()[{i}][{a}] at {P[p].tolist()} = {ref[p, a, i]}",
+                         dict(ident, p=int(p), a=int(a), i=int(i), got=float(got[p, a, i]), want=float(ref[p, a, i])))
+            # closed forms on the evaluated arrays: Kronecker at the nodes, partition of unity everywhere
+            if prefix == "_" and t == "N":
+                if label.startswith("nodes"):
+                    e2 = np.abs(got[:, 0, :].astype(float) - np.eye(g.nPe)).max()
+                    if not (e2 <= 1e-10):
+                        res.fail(f"elem={name} evaluator kronecker points={label}",
+                                 f"evaluated N_i(x_j) differs from delta_ij by {e2} on {name} ({label}, dtype {P.dtype})", ident)
+                e3 = np.abs(got[:, 0, :].astype(float).sum(axis=1) - 1).max()
+                if not (e3 <= 1e-10):
+                    res.fail(f"elem={name} evaluator partition-of-unity points={label}",
+                             f"evaluated sum_i N_i differs from 1 by {e3} on {name} ({label}, dtype {P.dtype})", ident)
+            if prefix == "_Hermitian_" and label.startswith("nodes") and t in ("N", "dN"):
+                eye = np.eye(g.nPe)
+                v = got[:, 0, :].astype(float)
+                want_even, want_odd = (eye, 0 * eye) if t == "N" else (0 * eye, eye / 2)
+                e4 = max(np.abs(v[:, 0::2] - want_even).max(), np.abs(v[:, 1::2] - want_odd).max())
+                if not (e4 <= 1e-9):
+                    res.fail(f"hermite={name} evaluator interpolation table={t} points={label}",
+                             f"evaluated Hermite {'values' if t == 'N' else 'slopes'} at the nodes off by {e4} on {name} ({label}, dtype {P.dtype})", ident)
+
+
+def kronecker_defect(g):
+    """max |N_i(x_j) - delta_ij| with the group's own nodes and callables (scalar float calls)."""
+    nodes = np.asarray(g.Get_Local_Coords(), dtype=float)
+    N = g._N()
+    vals = np.array([[float(N[i, 0](*[float(c) for c in x])) for i in range(g.nPe)] for x in nodes])
+    return float(np.abs(vals - np.eye(g.nPe)).max())
+
+
+def hermite_defect(g):
+    nodes = [float(c) for c in np.asarray(g.Get_Local_Coords(), dtype=float)[:, 0]]
+    H, dH = g._Hermitian_N(), g._Hermitian_dN()
+    val = np.array([[float(H[k, 0](x)) for k in range(2 * g.nPe)] for x in nodes])
+    slope = np.array([[float(dH[k, 0](x)) for k in range(2 * g.nPe)] for x in nodes])
+    eye = np.eye(g.nPe)
+    return float(max(np.abs(val[:, 0::2] - eye).max(), np.abs(val[:, 1::2]).max(),
+                     np.abs(slope[:, 0::2]).max(), np.abs(slope[:, 1::2] - eye / 2).max()))
+
+
+def check_after_caller_writes(res, name, make):
+    """What the getters return belongs to the caller: a first group hands out its reference nodes and its
+    table of functions, the caller works on them IN PLACE (shift of the nodes for a plot, an entry of the
+    table replaced), and the property must still hold on that group asked again and on a second, fresh
+    group of the same element type (its own nodes, its own callables)."""
+    history = "g1 = new group; x = g1.Get_Local_Coords(); x += 1; T = g1._N(); T[0, 0] = (lambda *a: 7.0)"
+    try:
+        g1 = make(name)
+        x = g1.Get_Local_Coords()
+        before = np.array(x, dtype=float)
+        x += 1
+        T = g1._N()
+        T[0, 0] = lambda *a: 7.0
+        if hasattr(g1, "_Hermitian_N"):
+            H = g1._Hermitian_N()
+            H[0, 0] = lambda *a: 7.0
+        g2 = make(name)
+        for who, g in (("first group asked again", g1), ("second group", g2)):
+            after = np.asarray(g.Get_Local_Coords(), dtype=float)
+            res.case((name, "caller-writes", who))
+            d = kronecker_defect(g)
+            ident = dict(elem=name, history=history, checked_on=who, nodes_before=before.tolist(), nodes_now=after.tolist())
+            if not (d <= 1e-10):
+                res.fail(f"elem={name} kronecker after in-place use of returned arrays ({who})",
+                         f"N_i(x_j) differs from delta_ij by {d} on the {who} of {name} after the caller modified in place "
+                         f"the arrays returned to it by the first group", ident)
+            if hasattr(g1, "_Hermitian_N"):
+                d = hermite_defect(g)
+                if not (d <= 1e-9):
+                    res.fail(f"hermite={name} interpolation after in-place use of returned arrays ({who})",
+                             f"Hermite value/slope conditions off by {d} on the {who} of {name} after the caller modified in place "
+                             f"the arrays returned to it by the first group", ident)
+    except Exception as e:  # noqa: BLE001
+        res.fail(f"elem={name} in-place use of returned arrays raises", f"{type(e).__name__}: {e}", dict(elem=name, history=history))
 
 
 def main():
@@ -128,7 +275,7 @@ def main():
             for j in range(nPe):
                 v = call(T["N"][i, 0], nodes[j])
                 res.case((name, "kron", i, j), nontrivial=True)
-                if abs(v - (1 if i == j else 0)) > TOL:
+                if not (abs(v - (1 if i == j else 0)) <= TOL):
                     res.fail(f"elem={name} kronecker i={i} j={j}", f"N_{i}(x_{j}) = {float(v)} on {name}",
                              dict(elem=name, i=i, j=j, node=[str(c) for c in nodes[j]], value=str(v)))
         pts = [rand_point(rng, dim) for _ in range(npts)]
@@ -136,7 +283,7 @@ def main():
             # partition of unity
             s = sum(call(T["N"][i, 0], x) for i in range(nPe))
             res.case((name, "pou", tuple(x)))
-            if abs(s - 1) > TOL:
+            if not (abs(s - 1) <= TOL):
                 res.fail(f"elem={name} partition-of-unity", f"sum N_i = {float(s)} at {x} on {name}",
                          dict(elem=name, point=[str(c) for c in x], value=str(s)))
             # reproduction of the polynomial space
@@ -144,7 +291,7 @@ def main():
                 mono = lambda y: np.prod([y[k] ** m[k] for k in range(dim)]) if dim else 1  # noqa: E731
                 lhs = sum(Fraction(mono(nodes[i])) * call(T["N"][i, 0], x) for i in range(nPe))
                 res.case((name, "repro", m, tuple(x)), nontrivial=sum(m) > 0)
-                if abs(lhs - Fraction(mono(x))) > TOL:
+                if not (abs(lhs - Fraction(mono(x))) <= TOL):
                     res.fail(f"elem={name} reproduces monomial={m}", f"interpolant of x^{m} is {float(lhs)} at {x} on {name}",
                              dict(elem=name, monomial=list(m), point=[str(c) for c in x], value=str(lhs)))
         # derivative tables vs exact derivative of the previous table (all entries)
@@ -157,7 +304,7 @@ def main():
                         d = deriv_exact(fprev, x, a)
                         v = call(T[nxt][i, a], x)
                         res.case((name, nxt, i, a, tuple(x)), nontrivial=(d != 0))
-                        if abs(d - v) > Fraction(1, 10**8) * (1 + abs(d)):
+                        if not (abs(d - v) <= Fraction(1, 10**8) * (1 + abs(d))):
                             res.fail(f"elem={name} table={nxt} entry={i},{a}",
                                      f"{name}._{nxt}()[{i}][{a}] = {float(v)} but d/dxi_{a} of _{prev}()[{i}] = {float(d)} at {x}",
                                      dict(elem=name, table=nxt, i=i, a=a, point=[str(c) for c in x], tabulated=str(v), derivative=str(d)))
@@ -186,11 +333,11 @@ def main():
                             want = call(T[t][i, 0 if t == "N" else a], x)
                             got = Fraction(float(arr[p, a, i]))
                             res.case((name, "glue", t, str(mt), p, i, a), nontrivial=(want != 0))
-                            if abs(want - got) > Fraction(1, 10**9) * (1 + abs(want)):
+                            if not (abs(want - got) <= Fraction(1, 10**9) * (1 + abs(want))):
                                 res.fail(f"elem={name} glue=Get_{t}_pg",
                                          f"{name}.Get_{t}_pg({mt})[{p},{a},{i}] = {float(got)} but _{t}()[{i}][{a}] at that Gauss point = {float(want)}",
                                          dict(elem=name, getter=f"Get_{t}_pg", matrixType=str(mt), gauss_point=p, i=i, a=a, got=float(got), want=float(want)))
-                            if p < (2 if args.tier == "quick" else gp.shape[0]):
+                            if not (p >= (2 if args.tier == "quick" else gp.shape[0])):
                                 lines.append(f"E {name} {t} {i} {a} " + " ".join(frac_str(c) for c in x))
                                 expect.append((name, "Get_%s_pg[%s]" % (t, mt), i, a, x, got))
 
@@ -216,7 +363,7 @@ def main():
                 )
                 for k, v in vals.items():
                     res.case((cname, k, i, j))
-                    if abs(v) > eps:
+                    if not (abs(v) <= eps):
                         res.fail(f"hermite={cname} interpolation {k} i={i} j={j}", f"{k} condition off by {float(v)}",
                                  dict(elem=cname, cond=k, i=i, j=j, value=str(v)))
         pts = [rand_point(rng, 1) for _ in range(npts)]
@@ -227,7 +374,7 @@ def main():
                     d = deriv_exact(T[prev][i, 0], x, 0)
                     v = call(T[nxt][i, 0], x)
                     res.case((cname, nxt, i, tuple(x)), nontrivial=(d != 0))
-                    if abs(d - v) > Fraction(1, 10**7) * (1 + abs(d)):
+                    if not (abs(d - v) <= Fraction(1, 10**7) * (1 + abs(d))):
                         res.fail(f"hermite={cname} table={nxt} entry={i}",
                                  f"{cname}._Hermitian_{nxt}()[{i}] = {float(v)} but derivative of _{prev}[{i}] = {float(d)} at {x}",
                                  dict(elem=cname, table=nxt, i=i, point=[str(c) for c in x], tabulated=str(v), derivative=str(d)))
@@ -249,13 +396,33 @@ def main():
                     want = call(T[t][i, 0], x)
                     got = Fraction(float(arr[p, 0, i]))
                     res.case((cname, "glue", t, p, i), nontrivial=(want != 0))
-                    if abs(want - got) > Fraction(1, 10**9) * (1 + abs(want)):
+                    if not (abs(want - got) <= Fraction(1, 10**9) * (1 + abs(want))):
                         res.fail(f"hermite={cname} glue=Get_Hermitian_{t}_pg",
                                  f"{cname}.Get_Hermitian_{t}_pg()[{p},0,{i}] = {float(got)} but _Hermitian_{t}()[{i}] there = {float(want)}",
                                  dict(elem=cname, getter=f"Get_Hermitian_{t}_pg", gauss_point=p, i=i, got=float(got), want=float(want)))
-                    if p < (2 if args.tier == "quick" else gp.shape[0]):
+                    if not (p >= (2 if args.tier == "quick" else gp.shape[0])):
                         lines.append(f"H {cname} {t} {i} " + frac_str(x[0]))
                         expect.append((cname, "Get_Hermitian_%s_pg" % t, i, 0, x, got))
+
+    # ---------------- the library's evaluator of the tables away from the Gauss points ----------------
+    for name in names:
+        g = make_group(name)
+        res.count("evaluator:" + name)
+        check_evaluator(res, name, g, tables_of(g), "_", rng, npts)
+    for cname in beams:
+        g = make_beam(cname)
+        res.count("evaluator:" + cname)
+        check_evaluator(res, cname, g, htables_of(g), "_Hermitian_", rng, npts)
+        check_evaluator(res, cname, g, tables_of(g), "_", rng, npts)
+
+    # ---------------- histories: the caller works in place on what the getters returned ----------------
+    # (last, so that whatever it does to the library's state cannot hide behind the checks above)
+    for name in names:
+        res.count("caller-writes:" + name)
+        check_after_caller_writes(res, name, make_group)
+    for cname in beams:
+        res.count("caller-writes:" + cname)
+        check_after_caller_writes(res, cname, make_beam)
 
     answers = driver.ask(lines)
     if answers is None:
@@ -267,7 +434,7 @@ def main():
                 res.disagree("model-answer", dict(elem=name, table=t, i=i, a=a, answer=ans))
                 continue
             model = parse_frac(ans)
-            if abs(model - real) > Fraction(1, 10**10) * (1 + abs(model)):
+            if not (abs(model - real) <= Fraction(1, 10**10) * (1 + abs(model))):
                 res.disagree("table-value", dict(elem=name, table=t, i=i, a=a, point=[str(c) for c in x], model=str(model), real=float(real)))
         for k in (0, len(lines) // 2, len(lines) - 1):
             res.sample(dict(request=lines[k], model=answers[k], real=float(expect[k][5])))
